@@ -20,8 +20,17 @@ def sh(cmd, cwd=None, timeout=1800):
 def main():
     pid, n = sys.argv[1], sys.argv[2]
     tier = sys.argv[3] if len(sys.argv) > 3 else "quick"
+    # a change is taken from the sub-agent's delivery directory or, once it has been kept, from /verif/seeded
     src = "/tmp/seed_out/%s" % pid
     patch = "%s/patch%s.diff" % (src, n)
+    kept = "/verif/seeded/%s/%s" % (pid, n)
+    if not os.path.exists(patch) and os.path.exists(kept + "/patch.diff"):
+        src, patch = kept, kept + "/patch.diff"
+    # /repo has moved on (fix: commits) since some changes were made: a hand-ported copy is used when present
+    for reb in ("/tmp/seed_out/rebased/%s_%s.diff" % (pid, n), kept + "/patch.rebased.diff"):
+        if os.path.exists(reb):
+            patch = reb
+            break
     rec = {"property": pid, "n": n, "tier": tier}
     wt = "/tmp/seedeval_%s_%s" % (pid, n)
     sh("git -C /repo worktree remove --force %s" % wt)
